@@ -56,6 +56,45 @@ pub fn observable(u: &Rc<Universe>, p: &Prob, opts: &SolveOpts) -> String {
     }
 }
 
+/// The universe captured into a serialised snapshot (seeded with everything the problem names).
+fn snapshot_json(u: &Rc<Universe>, p: &Prob) -> Option<String> {
+    use resolvo::{NameId, SolvableId, VersionSetId, snapshot::DependencySnapshot};
+    let mut vs: Vec<u32> = p.cons.clone();
+    for r in &p.reqs {
+        match r {
+            Req::Single(v) => vs.push(*v),
+            Req::Union(un) => vs.extend(u.unions[*un as usize].iter().copied()),
+        }
+    }
+    match crate::run::catch(|| DependencySnapshot::from_provider(Prov::new(u.clone()), std::iter::empty::<NameId>(), vs.iter().map(|&v| VersionSetId(v)), std::iter::empty::<SolvableId>())) {
+        Caught::Ok(Ok(s)) => serde_json::to_string(&s).ok(),
+        _ => None,
+    }
+}
+
+/// Everything observable about one solve through a freshly deserialised snapshot.
+fn observable_snapshot(js: &str, p: &Prob) -> String {
+    use resolvo::{Problem, Solver, UnsolvableOrCancelled, VersionSetId, snapshot::DependencySnapshot};
+    let r = crate::run::catch(|| {
+        let snap: DependencySnapshot = serde_json::from_str(js).expect("deserialise");
+        let mut prov = snap.provider();
+        // root unions are rebuilt from their members in listed order
+        let reqs: Vec<resolvo::Requirement> = p.reqs.iter().filter_map(|r| match r { Req::Single(v) => Some(resolvo::Requirement::Single(VersionSetId(*v))), Req::Union(_) => None }).collect();
+        let _ = &mut prov;
+        let mut solver = Solver::new(prov);
+        match solver.solve(Problem::new().requirements(reqs).constraints(p.cons.iter().map(|&v| VersionSetId(v)).collect())) {
+            Ok(v) => format!("OK {:?}", v.iter().map(|s| s.0).collect::<Vec<_>>()),
+            Err(UnsolvableOrCancelled::Unsolvable(c)) => format!("UNSAT\n{}", c.display_user_friendly(&solver)),
+            Err(UnsolvableOrCancelled::Cancelled(_)) => "<cancelled>".into(),
+        }
+    });
+    match r {
+        Caught::Ok(s) => s,
+        Caught::Panic(p) => format!("<panic {}>", p.signature()),
+        _ => "<no verdict>".into(),
+    }
+}
+
 fn fnv(s: &str) -> u64 {
     let mut h = 0xcbf29ce484222325u64;
     for b in s.bytes() {
@@ -70,7 +109,7 @@ impl Monitor for C06 {
         "C06"
     }
     fn rule(&self) -> String {
-        "cases = seeded universes biased to what makes hash order observable (many packages / candidates per conflict, large merge groups, Unsolvable results) solved with a non-yielding provider; (a) in-process: 3 fresh solver instances (each hash map gets its own random ahash seed) must return the identical solution vector (order included) or the identical user-friendly message and graphviz text (plain and simplified); (b) cross-process: the same cases are run in several separate processes (different ahash seeds, heap addresses, ASLR) and the per-case digests are compared by the check driver. distinct = content hash; non-trivial = distinct Unsolvable case whose message contains a merged group ('|') or Ok case with >= 4 solvables".into()
+        "cases = seeded universes biased to what makes hash order observable (many packages / candidates per conflict, large merge groups, Unsolvable results) solved with a non-yielding provider; (a) in-process: 3 fresh solver instances (each hash map gets its own random ahash seed) must return the identical solution vector (order included) or the identical user-friendly message and graphviz text (plain and simplified); (b) cross-process: the same cases are run in several separate processes (different ahash seeds, heap addresses, ASLR) and the per-case digests are compared by the check driver; (c) for a third of the cases (no favored/locked, no soft) the universe is captured into a serialised DependencySnapshot and solved through 3 freshly deserialised copies (the repository's own SnapshotProvider as the deterministic provider): identical solution vector or message, in-process and (through the digest) across processes. distinct = content hash; non-trivial = distinct Unsolvable case whose message contains a merged group ('|') or Ok case with >= 4 solvables".into()
     }
     fn cases(&self, tier: Tier) -> u64 {
         tier.pick(96_000, 1_920_000)
@@ -118,9 +157,30 @@ impl Monitor for C06 {
         } else {
             ctx.rep.count("not-a-verdict (see C04)");
         }
+        // (c) the repository's own SnapshotProvider as the deterministic provider: one serialised
+        // snapshot, deserialised afresh for every instance (fresh hash sets with fresh seeds)
+        let mut snap_digest = 0u64;
+        if ctx.case_seed % 3 == 0 && c.u.pkgs.iter().all(|p| p.favored.is_none() && p.locked.is_none()) && c.p.soft.is_empty() {
+            if let Some(js) = snapshot_json(&u, &c.p) {
+                let outs: Vec<String> = (0..3).map(|_| observable_snapshot(&js, &c.p)).collect();
+                ctx.rep.evaluations += 3;
+                ctx.rep.count("snapshot-provider-cases-compared");
+                if outs[0].starts_with("OK") && c.u.solvs.iter().any(|s| matches!(&s.deps, Deps::Known { reqs, .. } if reqs.iter().any(|r| matches!(r, Req::Union(_))))) || c.p.reqs.iter().any(|r| matches!(r, Req::Union(_))) {
+                    ctx.rep.count("snapshot-provider-cases-with-unions");
+                }
+                for k in 1..3 {
+                    if outs[k] != outs[0] {
+                        let (a, b) = (outs[0].lines().zip(outs[k].lines()).find(|(x, y)| x != y)).map(|(x, y)| (x.to_string(), y.to_string())).unwrap_or_default();
+                        ctx.violation("solving through freshly deserialised copies of one snapshot gives different output", format!("copy 0 vs {k}: first differing line: {:?} vs {:?}", a, b));
+                        break;
+                    }
+                }
+                snap_digest = fnv(&outs[0]);
+            }
+        }
         if let Some(f) = &self.digest_file {
             let mut f = f.lock().unwrap();
-            let _ = writeln!(f, "{} {:016x} {}", ctx.case_seed, fnv(&first), first.lines().next().unwrap_or("").chars().take(40).collect::<String>());
+            let _ = writeln!(f, "{} {:016x}-{:016x} {}", ctx.case_seed, fnv(&first), snap_digest, first.lines().next().unwrap_or("").chars().take(40).collect::<String>());
         }
         if first.contains(" | ") {
             ctx.rep.sample(|| json!({"universe": universe_text(&u), "problem": problem_text(&u, &c.p), "message": first.lines().skip(1).take(12).collect::<Vec<_>>()}));
